@@ -377,10 +377,10 @@ func (n *Nodis) BRPop(timeout time.Duration, keys ...string) (string, []byte) {
 	}
 	select {
 	case key := <-c:
-		results := n.LPop(key, 1)
+		results := n.RPop(key, 1)
 		if results != nil {
 			n.notify(func() []patch.Op {
-				return []patch.Op{{Type: patch.OpTypeLPop, Data: &patch.OpLPop{Key: key}}}
+				return []patch.Op{{Type: patch.OpTypeRPop, Data: &patch.OpRPop{Key: key}}}
 			})
 			return key, results[0]
 		}
